@@ -68,9 +68,16 @@ def to_pair(x):
     raise ValueError('not a Gaussian rational: %s' % str(x)[:80])
 
 
+SQD = None      # set per case: d when the case lives in Q(i)(sqrt d) (numbers are then 4-lists, tools/ilt_qext.py)
+
+
 def gauss(x):
-    """sympy number -> [re, im] strings ("p/q"), or raise; exact, never via floats"""
+    """sympy number -> [re, im] strings ("p/q"), or raise; exact, never via floats.
+    Cases over Q(i)(sqrt d): -> [re a, im a, re b, im b] for a + b sqrt(d)"""
     x = sym.sympify(x)
+    if SQD is not None:
+        import ilt_qext
+        return ilt_qext.quad_json(x, SQD)
     try:
         re, im = to_pair(x)
     except ValueError:
@@ -132,6 +139,18 @@ def parse_time(e):
         raise Unparsed('unsupported construct')
     for fn in (sym.cos, sym.sin, sym.cosh, sym.sinh, sym.tanh):
         e = e.rewrite(fn, sym.exp)
+    if SQD is not None:
+        # constants with sums in their denominators (1/(3 - sqrt(5))) are brought to a + b sqrt(d) first,
+        # otherwise expand() merges them with exponentials of negative exponent into one denominator
+        import ilt_qext
+
+        def _canon(x):
+            try:
+                q = ilt_qext.to_quad(x, SQD)
+            except ValueError:
+                return x
+            return (ungauss(q.a.js()) + ungauss(q.b.js()) * sym.sqrt(SQD))
+        e = e.replace(lambda x: x.is_Pow and x.exp.is_Integer and x.exp < 0 and x.base.is_Add and not x.base.has(t), _canon)
     e = sym.expand(e)
     reg = {}
     sing = {}
@@ -194,13 +213,13 @@ def parse_time(e):
     out_reg = []
     for (T, n, pg, step), c in sorted(reg.items(), key=lambda kv: str(kv[0])):
         gc = gauss(c * sym.factorial(n))     # Lcapy writes c * t^n e^{pt}; the normal form uses t^n/n!
-        if gc == ['0/1', '0/1']:
+        if all(z == '0/1' for z in gc):
             continue
         out_reg.append([T, n, list(pg), gc, step])
     out_sing = []
     for (T, k), c in sorted(sing.items(), key=lambda kv: str(kv[0])):
         gc = gauss(c)
-        if gc == ['0/1', '0/1']:
+        if all(z == '0/1' for z in gc):
             continue
         out_sing.append([T, k, gc])
     return {'cond': cond, 'reg': out_reg, 'sing': out_sing}
@@ -369,8 +388,11 @@ def run_undef(case):
 
 
 def run(case):
+    global SQD
+    SQD = None
     if 'undef' in case:
         return run_undef(case)
+    SQD = case.get('sqrtd')
     damping = case.get('damping')
     opts = {}
     for k, v in case['opts']:
